@@ -5,7 +5,7 @@ from . import reflex
 
 
 class Laid:
-    __slots__ = ("text", "pos", "nmarkers", "nfilechanges", "inside_markers", "extra")
+    __slots__ = ("text", "pos", "nmarkers", "nfilechanges", "inside_markers", "extra", "ncollisions")
 
     def __init__(self):
         self.text = ""
@@ -13,6 +13,7 @@ class Laid:
         self.nmarkers = 0
         self.nfilechanges = 0
         self.inside_markers = []  # token indices directly preceded by a linemarker
+        self.ncollisions = 0
         self.extra = {}  # further token starts: position -> index of the owning token (pragma strings)
 
 
@@ -20,7 +21,7 @@ WS = [" ", " ", "  ", "\t", "\n", "\n  ", " \n\t", "\n\n", " \t "]
 MARKER_FORMS = ['# %d "%s"', '#line %d "%s"', '# %d "%s" 1', '# %d "%s" 2 3', '  #  %d "%s"', "# %d", "#line %d", "#\tline %d"]
 
 
-def lay_out(toks, c, style="random", filename="f.c", marker_p=0.08, file_change=True, adjacency=True, span=None):
+def lay_out(toks, c, style="random", filename="f.c", marker_p=0.08, file_change=True, adjacency=True, span=None, collide_p=0.03):
     """toks: list of objects with .s (spelling) and .line (own-line pragma).
     c: Chooser (None for the plain style).  Returns Laid."""
     out = Laid()
@@ -67,6 +68,32 @@ def lay_out(toks, c, style="random", filename="f.c", marker_p=0.08, file_change=
             run = []
             continue
         marker = False
+        if style == "random" and collide_p and len(out.pos) > 0 and c.chance(collide_p):
+            # a linemarker that re-bases the NEXT token onto the (line, column) - and
+            # in half of the cases the file - of an EARLIER token, preferably one with
+            # the same spelling: two different tokens then carry identical positions
+            same = [j for j in range(len(out.pos)) if not toks[j].line and toks[j].s == t.s]
+            j = c.choice(same) if same and c.chance(0.7) else c.int(max(0, len(out.pos) - 6), len(out.pos) - 1)
+            tf, tl, tc = out.pos[j]
+            if not toks[j].line:
+                newline_if_needed()
+                fn = tf if c.chance(0.5) else c.choice(["f.c", "g.h", "dir/h.h", "a b.c"])
+                parts.append('# %d "%s"\n' % (tl, fn))
+                if fn != st["file"]:
+                    out.nfilechanges += 1
+                st["file"] = fn
+                st["line"] = tl
+                st["col"] = 1
+                st["bol"] = True
+                emit(" " * (tc - 1))
+                out.nmarkers += 1
+                out.ncollisions += 1
+                out.inside_markers.append(i)
+                out.pos.append((st["file"], st["line"], st["col"]))
+                emit(t.s)
+                run = [t.s]
+                prev = t.s
+                continue
         if style == "random" and marker_p and c.chance(marker_p):
             newline_if_needed()
             form = c.choice(MARKER_FORMS)
